@@ -76,7 +76,28 @@ CHECKS["C13"] = {
     "technique": "property-based testing (rapid) with a by-construction oracle; exhaustive small-scope enumeration (all multisets of <=2 records)",
 }
 
+CHECKS["C16"] = {
+    "title": "error replies are coherent",
+    "go": GO,
+    "units": [
+        {"name": "endpoint", "pkg": "internal/endpoint/smtp",
+         "overlay": {"verif_c16_test.go": "harness/C16/endpoint_test.go"},
+         "overlay_abs": {"internal/verifx/errtree.go": "harness/shared/verifx/errtree.go"}},
+        {"name": "reject", "pkg": "internal/msgpipeline", "run": "^TestVerifC16",
+         "overlay": {"verif_c16_test.go": "harness/C16/reject_test.go"},
+         "quick": {"shards": 1}, "thorough": {"shards": 1}},
+    ],
+    "quick": {"n": 40000, "shards": 8},
+    "thorough": {"n": 1600000, "shards": 16},
+    "level_text": "randomised search (rapid) over error trees built from maddy's wrapping primitives, pushed through the endpoint's and the queue's reply "
+                  "conversion and compared with a reference classification computed from the tree alone; plus a complete enumeration of the SMTP error "
+                  "literals and helper call sites of the current source tree (AST), each evaluated for both classes of inner error.",
+    "level_note": "codes typed by the administrator in a three-argument reject directive are not 'generated by maddy' and are not checked; "
+                  "sites whose codes are not literals are counted as unresolved and not judged",
+    "technique": "property-based testing (rapid) with a reference classifier; exhaustive enumeration of literal/helper call sites",
+}
+
 # properties deliberately not claimed: {"property_id":..., "reason":...}
 NOT_APPLICABLE = []
 
-FIX_COMMITS = ["b0fbfbf", "ce16772", "79536cb", "9da7ceb", "ba9a898", "cd17c24"]
+FIX_COMMITS = ["b0fbfbf", "ce16772", "79536cb", "9da7ceb", "ba9a898", "cd17c24", "0f579ef", "cfad1cd", "1450983"]
